@@ -24,6 +24,7 @@ type maprCase struct {
 	Query   string       `json:"query"`   // hex
 	Servers [][][]string `json:"servers"` // server -> chunk -> lines (hex)
 	Order   []int        `json:"order"`   // which server's next message is delivered (indices; exhausted servers are skipped)
+	Reports bool         `json:"reports"` // the client renders an interim result after every delivered message (periodicReportResults)
 }
 
 func runServer(query string, chunks [][]string) ([]string, error) {
@@ -103,6 +104,9 @@ func init() {
 			}
 			clients[s].Write(append([]byte(fmt.Sprintf("AGGREGATE|s%d|%s", s, perServer[s][next[s]])), 0xac))
 			next[s]++
+			if c.Reports {
+				global.Result(query, 10)
+			}
 			return true
 		}
 		for _, s := range c.Order {
